@@ -1,6 +1,7 @@
 package main
 
 import (
+	"encoding/base64"
 	"fmt"
 	"math/rand"
 	"strconv"
@@ -68,6 +69,9 @@ func execDec(op string, a []string) string {
 		b, err := key.MarshalCBOR(&c)
 		if err != nil {
 			return "err"
+		}
+		if string(c.Bytesify()) != string(b) {
+			return "ok " + hx(b) + " BYTESIFY-DIFFERS"
 		}
 		// struct and map forms agree; decoding gives the value back
 		var cm cwt.ClaimsMap
@@ -143,6 +147,14 @@ func execDec(op string, a []string) string {
 			if err := d2.UnmarshalJSON(j); err != nil || string(d2) != string(b) {
 				return "JSON-ROUNDTRIP-CHANGED-REUSED-DESTINATION"
 			}
+		}
+		// the helper forms of the same octets: hex and base64url (padded or not) back to the bytes, malformed text to nil
+		if string(key.HexBytesify(b.String())) != string(b) || string(key.Base64Bytesify(b.Base64())) != string(b) ||
+			string(key.Base64Bytesify(base64.URLEncoding.EncodeToString(b))) != string(b) {
+			return "HELPER-ROUNDTRIP-CHANGED"
+		}
+		if key.HexBytesify(b.String()+"0") != nil || key.HexBytesify("zz") != nil || key.Base64Bytesify(b.Base64()+"*") != nil {
+			return "HELPER-ACCEPTS-MALFORMED-TEXT"
 		}
 		return "ok " + string(t)
 	case "dec.keyjson":
